@@ -95,10 +95,16 @@ func (w *WalletManager) constructTxIn(inputs []*TxIn, lockTime uint64) (*wire.Ms
 		if err != nil {
 			return nil, nil, massutil.ZeroAmount(), ErrNoAddressInWallet
 		}
+		// an unmined parent has no block yet: it will be mined above the current tip
+		originHeight, _ := w.SyncedTo()
+		originHeight++
+		if block != nil {
+			originHeight = block.Height
+		}
 		switch {
 		case pks.IsStaking():
 			txIn.Sequence = pks.Maturity()
-		case pks.IsBinding() && forks.EnforceMASSIP0002WarmUp(block.Height):
+		case pks.IsBinding() && forks.EnforceMASSIP0002WarmUp(originHeight):
 			txIn.Sequence = consensus.MASSIP0002BindingLockedPeriod
 		default:
 		}
@@ -678,7 +684,13 @@ func (w *WalletManager) signWitnessTx(password []byte, tx *wire.MsgTx, hashType 
 		}
 
 		scriptFlags := txscript.StandardVerifyFlags
-		if forks.EnforceMASSIP0002WarmUp(cacheMeta[txIn.PreviousOutPoint.Hash].Height) {
+		// an unmined parent has no block yet: it will be mined above the current tip
+		originHeight, _ := w.SyncedTo()
+		originHeight++
+		if meta := cacheMeta[txIn.PreviousOutPoint.Hash]; meta != nil {
+			originHeight = meta.Height
+		}
+		if forks.EnforceMASSIP0002WarmUp(originHeight) {
 			scriptFlags |= txscript.ScriptMASSip2
 		}
 		// Either it was already signed or we just signed it.
